@@ -22,6 +22,7 @@ type vfPuppetCfg struct {
 	AckARwnd    uint32 // a_rwnd to advertise in SACKs (0 -> ARwnd)
 	ZeroCsumOut bool   // write packets with zero checksum
 	Active      bool   // the puppet initiates (INIT, COOKIE-ECHO); the real association is the server
+	FirstExt    []byte // Active only: a first INIT lists these extensions, its INIT-ACK is ignored ("lost") and the INIT is sent again with Ext
 }
 
 type vfPuppet struct {
@@ -42,6 +43,8 @@ type vfPuppet struct {
 	estabSet bool
 	peerExt  vfInitExt
 	peerInit *vfChunk
+
+	ignoreInitAcks int
 }
 
 func (s *vfSim) newPuppet(side int, cfg vfPuppetCfg) *vfPuppet {
@@ -62,13 +65,21 @@ func (s *vfSim) newPuppet(side int, cfg vfPuppetCfg) *vfPuppet {
 		if ext == nil {
 			ext = []byte{vfCtReconfig, vfCtForwardTSN}
 		}
-		val := vfU32(cfg.Tag, cfg.ARwnd, 0xffffffff, cfg.InitTSN)
-		val = append(val, vfTLV(0x8008, ext)...)
-		val = append(val, cfg.ExtraParams...)
-		_, _ = p.conn.Write(vfNewPacket(5000, 5000, 0).chunk(vfCtInit, 0, val).bytes(true))
+		if cfg.FirstExt != nil {
+			ext = cfg.FirstExt
+			p.ignoreInitAcks = 1
+		}
+		p.sendInit(ext)
 	}
 
 	return p
+}
+
+func (p *vfPuppet) sendInit(ext []byte) {
+	val := vfU32(p.cfg.Tag, p.cfg.ARwnd, 0xffffffff, p.cfg.InitTSN)
+	val = append(val, vfTLV(0x8008, ext)...)
+	val = append(val, p.cfg.ExtraParams...)
+	_, _ = p.conn.Write(vfNewPacket(5000, 5000, 0).chunk(vfCtInit, 0, val).bytes(true))
 }
 
 func vfTLV(typ uint16, val []byte) []byte {
@@ -133,6 +144,17 @@ func (p *vfPuppet) serve() {
 				_, _ = p.conn.Write(b.bytes(true))
 			case vfCtInitAck:
 				if !p.cfg.Active {
+					break
+				}
+				if p.ignoreInitAcks > 0 {
+					// this INIT-ACK "was lost": the INIT goes out again, with the final list of extensions
+					p.ignoreInitAcks--
+					ext := p.cfg.Ext
+					if ext == nil {
+						ext = []byte{vfCtReconfig, vfCtForwardTSN}
+					}
+					p.sendInit(ext)
+
 					break
 				}
 				p.mu.Lock()
